@@ -257,9 +257,9 @@ func (o *Options) AppendTime(buf []byte, t time.Time, sen bool) []byte {
 	if o.TimeMap {
 		buf = append(buf, '{')
 		if sen {
-			buf = AppendSENString(buf, o.CreateKey, o.HTMLUnsafe)
+			buf = AppendSENString(buf, o.CreateKey, !o.HTMLUnsafe)
 		} else {
-			buf = AppendJSONString(buf, o.CreateKey, o.HTMLUnsafe)
+			buf = AppendJSONString(buf, o.CreateKey, !o.HTMLUnsafe)
 		}
 		buf = append(buf, ':')
 		if sen {
@@ -278,9 +278,9 @@ func (o *Options) AppendTime(buf []byte, t time.Time, sen bool) []byte {
 	} else if 0 < len(o.TimeWrap) {
 		buf = append(buf, '{')
 		if sen {
-			buf = AppendSENString(buf, o.TimeWrap, o.HTMLUnsafe)
+			buf = AppendSENString(buf, o.TimeWrap, !o.HTMLUnsafe)
 		} else {
-			buf = AppendJSONString(buf, o.TimeWrap, o.HTMLUnsafe)
+			buf = AppendJSONString(buf, o.TimeWrap, !o.HTMLUnsafe)
 		}
 		buf = append(buf, ':')
 	}
